@@ -140,6 +140,14 @@ Inj == /\ R.e = "inj" /\ Clean /\ NoEvs /\ Len(R.snd) = 0
        /\ link' = [link EXCEPT ![R.x][R.y] = Append(@, [s |-> <<>>, m |-> <<R.k>>])]
        /\ UNCHANGED <<nn, slm, fifo, conn, tgt, subs, view, ann, seen>>
 
+(* a foreign announcement for topic t WITHOUT the optional subscribe flag was decoded from raw bytes and put on the
+   link: protobuf's default (false) makes it an unsubscription *)
+InjRaw == /\ R.e = "injraw" /\ ~Has(R, "codec") /\ Clean /\ NoEvs /\ Len(R.snd) = 0
+          /\ R.dec = <<<<R.t, 0>>>> /\ R.nm = 0
+          /\ link' = [link EXCEPT ![R.x][R.y] = Append(@, [s |-> R.dec, m |-> <<>>])]
+          /\ ann' = [ann EXCEPT ![R.x][R.y] = FALSE]          \* y's picture of x is no longer x's doing
+          /\ UNCHANGED <<nn, slm, fifo, conn, tgt, subs, view, seen, mt, src>>
+
 RECURSIVE ViewAfter(_, _, _)
 ViewAfter(v, s, i) == IF i > Len(s) THEN v
                       ELSE ViewAfter(IF s[i][2] = 1 THEN v \cup {s[i][1]} ELSE v \ {s[i][1]}, s, i + 1)
@@ -181,7 +189,7 @@ End == /\ R.e = "end"
        /\ R.quiet => \A a \in Nodes, b \in Nodes : link[a][b] = <<>>
        /\ UNCHANGED <<nn, slm, fifo, conn, tgt, subs, view, ann, link, seen, mt, src>>
 
-Next == l <= NRec /\ l' = l + 1 /\ (Reset \/ Conn \/ Disc \/ View \/ Unview \/ Sub \/ Unsub \/ Pub \/ Inj \/ Dlv \/ Skip \/ End)
+Next == l <= NRec /\ l' = l + 1 /\ (Reset \/ Conn \/ Disc \/ View \/ Unview \/ Sub \/ Unsub \/ Pub \/ Inj \/ InjRaw \/ Dlv \/ Skip \/ End)
 Spec == Init /\ [][Next]_vars
 (* invariants of the rebuilt state (redundant with the guards, cheap) *)
 TypeOK == /\ \A a \in Nodes, b \in Nodes : conn[a][b] = conn[b][a] /\ conn[a][b] \in 0..2
